@@ -237,6 +237,21 @@ def rule_counter_writers(res, rid, m):
     res.check(okg, rid, "getSequenceCounter", g.loc, "returns the counter member unchanged", "getSequenceCounter does not return the counter member")
 
 
+def rule_counter_survives_encode(res, rid, m):
+    """Frames of one endpoint are numbered consecutively *across* encode calls: no path from an encode entry point
+    (init, helpers, with the constant flags they pass propagated) assigns the sequence counter — it only advances."""
+    n = 0
+    for e in m.encodes:
+        may = m.eff.may_assign(e)
+        hits = may.get(m.counter, [])
+        n += 1
+        res.check(not hits, rid, "encode(%s):counter-not-reset" % encode_tag(e), (hits[0] if hits else e.raw).get("loc"),
+                  "no path from this entry point assigns the sequence counter",
+                  "a path from encode() assigns the sequence counter (`%s`): every call restarts the frame numbering, so counters repeat across "
+                  "batches of one endpoint" % (canon(hits[0])[:80] if hits else ""))
+    return n
+
+
 def rule_frame_stamped(res, rid, m):
     """C09-R2: each push onto the frame list is followed by setSequenceCounter(++counter) on the pushed frame."""
     f = m.opener
@@ -374,6 +389,16 @@ def rule_flag_table(res, rid, m):
     idxv = [lvalue_root(x["e"]) for part in (m.loop_stmt.get("body", {}), m.loop_stmt.get("inc") or {}) for x in walk(part)
             if x.get("k") == "un" and x.get("op") in ("pre++", "post++")]
     idxv = [d for d in idxv if d and d.startswith("l") and d not in (posv,)]
+    # the segment index must not wrap within one packet: up to 65535 segments (payload <= 65535 bytes, one byte per frame at worst)
+    for n0 in pp.nodes():
+        if n0.get("k") == "decl":
+            for v in n0.get("vars", []):
+                if v.get("decl") in idxv:
+                    bits = (v.get("t") or {}).get("bits") or 0
+                    sg = (v.get("t") or {}).get("sg")
+                    res.check(bits - (1 if sg else 0) >= 16, rid, "flag:index-width", n0.get("loc"), "segment index has %d value bits" % (bits - (1 if sg else 0)),
+                              "the per-packet segment index `%s` has only %d bits: it wraps to 0 within a packet of more than %d segments and that "
+                              "segment is flagged 'first' again" % (v.get("name"), bits, 1 << bits))
 
     def arg_of(node):
         n = strip_all_casts(node)
@@ -505,6 +530,39 @@ def rule_type_change_rebuilds_template(res, rid, m):
         res.check(m.template in must, rid, "type-change:invalidate", f.loc, "type change invalidates the template on every path",
                   "a message-type change neither opens a frame nor invalidates the cached template")
     return max(n, 1)
+
+
+def rule_type_change_opens_frame(res, rid, m):
+    """A frame announces one message type, stamped when it is opened: on every path on which the remembered message
+    type is changed, a frame is opened before the next message header is written (and before the function returns to
+    a caller that goes on writing).  Re-using the current frame — even one that holds no message yet — puts messages
+    of the new type under a header that announces the previous one."""
+    f = m.type_setter
+    n = 0
+    bad = None
+    for p in paths.enumerate_paths(f):
+        changed = False
+        opened_after = False
+        for _, x in p.elems():
+            if x.get("k") == "assign" and lvalue_root(x["l"]) == m.msgtype:
+                changed, opened_after = True, False
+            elif x.get("k") == "call":
+                g = m.fb.resolve_call(x)
+                if g is not None and g.rec == ENC and (g is m.opener or m.must_open(g)) and changed:
+                    opened_after = True
+                elif g is m.header_writer and changed and not opened_after and bad is None:
+                    bad = x
+        if changed:
+            n += 1
+            if not opened_after and bad is None and p.end == "exit":
+                bad = p.returns() or f.raw
+    res.check(bad is None, rid, "type-change:opens-frame", (bad or f.raw).get("loc") if isinstance(bad, dict) else f.loc,
+              "every path that changes the remembered message type opens a frame afterwards (%d paths)" % n,
+              "%s changes the remembered message type but, on some path, does not open a new frame: the next message goes into a frame "
+              "whose header announces the previous type" % f.name)
+    if n == 0:
+        raise Broken("type setter: no path assigns the remembered message type")
+    return n
 
 
 def rule_fit_decided_on_fresh_frame(res, rid, m):
